@@ -1324,6 +1324,7 @@ package main
 
 //@ func (*ClientTransportMgr).GetTransport
 //@   props C12
+//@   sensures nn: err == nil ==> result != nil
 //@   assumes supported-protocols
 //@   event gtProto: protocol
 //@   event gtHost: host
@@ -1468,4 +1469,17 @@ package main
 
 //@ func (*TCPBackend).connect
 //@   holds t
+
+// constructors and setters of a fail-over pair keep it flat
+//@ func NewFailOverClientTransport
+//@   props C12 C20
+//@   requires flat: !isType(primary, "*FailOverClientTransport") && !isType(secondary, "*FailOverClientTransport")
+//@   modifies nothing
+//@   ensures pair: fresh(result) && result.primary == primary && result.secondary == secondary
+
+//@ func (*FailOverClientTransport).SetPrimary
+//@   requires flat: !isType(primary, "*FailOverClientTransport")
+
+//@ func (*FailOverClientTransport).SetSecondary
+//@   requires flat: !isType(secondary, "*FailOverClientTransport")
 
